@@ -336,7 +336,7 @@ package aggregate
 // expoBuckets.record: the window [startBin, startBin+len) grows just enough to contain bin; the new bin's count grows by
 // one (starts at one), every old bin keeps its count at its (possibly shifted) position, every newly exposed slot is zero
 //@ func (b *expoBuckets) record(bin int32)
-//@   prop C07
+//@   prop C07 C08
 //@   overflow assumed
 //@   requires b != nil
 //@   modifies b.startBin, b.counts, elemscap(b.counts)
@@ -359,7 +359,7 @@ package aggregate
 // stored at exactly that index, which never lies above the index being read (in-place merge is safe), the new window is
 // exactly the image of the old one. Not decided: that the sums per new bin are complete (no summation operator).
 //@ func (b *expoBuckets) downscale(delta int32)
-//@   prop C07
+//@   prop C07 C08
 //@   split delta 0 .. 30
 //@   overflow assumed
 //@   requires b != nil && delta >= 0 && delta <= 30 && len(b.counts) <= 1073741824
